@@ -403,10 +403,44 @@ def suffix_lockstep(run, P):
                 tags.add(next_tag[n[1]])
         return tags.pop() if len(tags) == 1 else None
 
+    def strip(x):
+        while x[0] in ('ref', 'deref'):
+            x = x[1]
+        return x
+
+    def equality_kind(t, depth=0):
+        """what relation between the two segments a test computes: 'decoded' = equality of their percent-decoded octets (Iterator::eq of
+        as_pct_str().bytes() on both sides), 'segment' = Segment's own == on the segments themselves; anything else is returned as a text"""
+        if t[0] != 'call' or len(t[2]) != 2:
+            return None
+        x, y = strip(t[2][0]), strip(t[2][1])
+        if t[1].endswith('Iterator::eq'):
+            def octets(z):
+                return (z[0] == 'call' and z[1].endswith('PctStr::bytes') and z[2] and strip(z[2][0])[0] == 'call' and strip(z[2][0])[1].endswith('::as_pct_str')
+                        and strip(z[2][0])[2] and strip(strip(z[2][0])[2][0])[0] in ('payload', 'field', 'local', 'arg'))
+            return 'decoded' if octets(x) and octets(y) else 'an iterator comparison of something other than as_pct_str().bytes() on both sides'
+        if t[1].endswith(('PartialEq>::eq', 'PartialEq::eq')) and x[0] in ('payload', 'field', 'local', 'arg') and y[0] in ('payload', 'field', 'local', 'arg'):
+            return 'segment'
+        hb = P.body(t[1])
+        if hb is not None and depth < 2 and t[1].startswith(('common::', 'uri::', 'iri::')):
+            # a private helper of two arguments: what its result computes of them
+            ht = terms.Terms(hb).ret()
+            a1, a2 = t[2]
+            inner = terms.subst(ht, lambda n: a1 if n[0] == 'arg' and n[1] == 1 else a2 if n[0] == 'arg' and n[1] == 2 else None)
+            return equality_kind(inner, depth + 1)
+        inner = [strip(z) for z in (x, y)]
+        via = sorted({z[1].rsplit('::', 1)[-1] for z in inner if z[0] == 'call'})
+        return f'{t[1].rsplit("::", 2)[-2] if "::" in t[1] else t[1]}::eq of ' + (' / '.join(via) + '()' if via else 'other values')
+
+    bad_eq = []
+
     def atom_of(t):
-        if t[0] == 'call' and (t[1].endswith('Iterator::eq') or t[1].endswith('PartialEq>::eq') or t[1].endswith('::eq')) and len(t[2]) == 2:
+        if t[0] == 'call' and len(t[2]) == 2:
             pa, pb = payload_of(t[2][0]), payload_of(t[2][1])
-            if {pa, pb} == {'A', 'B'}:
+            if {pa, pb} == {'A', 'B'} and (t[1].endswith('::eq') or (P.body(t[1]) is not None and 'bool' in str(P.body(t[1])['locals'][0]))):
+                k = equality_kind(t)
+                if k not in ('decoded', 'segment'):
+                    bad_eq.append(k or 'an unrecognised test')
                 return ('EQ', False)
         return None
     seen = {}
@@ -443,6 +477,10 @@ def suffix_lockstep(run, P):
                    (True, False, None): 'the prefix is exhausted and the value has a segment', (False, False, None): 'both are exhausted'}[case]
             act = {'continue': 'goes on', 'none': 'returns None', 'some': 'returns Some(buffer)', '?': 'returns something else'}
             run.violation(f'suffix|lockstep|{case}', f'{P.where(b)} {fn}: when {txt}, an iteration {act[kind]}{" after pushing " + str(pushes) if pushes else ""} — expected: {act[want[0]]}{" after pushing the value segment" if want[1] else ""}')
+    for k in sorted(set(bad_eq)):
+        run.violation('suffix|equality', f'{P.where(b)} {fn}: whether a segment of the value matches the segment of the prefix is decided by {k} — not by the equality of segments '
+                      '(their percent-decoded octets, what Segment == and Path == compare): a prefix that equals the start of the value under == may yield no suffix')
+    run.count('suffix_equality_tests', len(bad_eq) + sum(1 for c in seen if c[2] is not None))
     if len(seen) < 5:
         run.violation('suffix|lockstep|cases', f'{P.where(b)} {fn}: only {len(seen)} of the 5 cases of the lockstep comparison were found')
     # the absolute / relative gate in front of the loop
@@ -483,6 +521,17 @@ def main(run):
     P = mir.Program(F)
     ctx = sites.Ctx(P)
     prefix_lemma(run, ctx)
+    directory_rules(run, P)
+    base_effect(run, P)
+    suffix_gate(run, P)
+    suffix_kind_gate(run, P)
+    suffix_lockstep(run, P)
+    return _main_tail(run, P, ctx)
+
+
+def directory_rules(run, P):
+    """PathImpl::directory (run by C16, whose base() rests on it, and by C12, whose directory/file_name split it is): every symbolic path
+    returns self (empty path), the EMPTY constant of the kind-neutral empty path, or a prefix ending with "/"; and that "/" is the last one"""
     directory_postcondition(run, P)
     # which "/" : the LAST one.  A hand-written backward scan is decided by Engine S in mirror mode; a search with Iterator::rposition is the
     # last match by definition (a forward `position` is rejected)
@@ -500,10 +549,9 @@ def main(run):
             run.cov['directory_scan_states'] = 0
         else:
             run.violation('directory|last', f'{P.where(db)} PathImpl::directory: cannot establish that the "/" it cuts after is the LAST one (neither a backward scan nor rposition)')
-    base_effect(run, P)
-    suffix_gate(run, P)
-    suffix_kind_gate(run, P)
-    suffix_lockstep(run, P)
+
+
+def _main_tail(run, P, ctx):
     scratch = Run('C16-sites', run.tier, '__none__')
     _, res = sites.check(scratch, P, 'C16')
     nb = [r for r in res if r[3] == 'LEMMA' and r[0]['name'].endswith('::base')]
